@@ -303,7 +303,8 @@ class BaseEvent(BaseModel, Generic[T_EventResultType]):
                         # Process any queued events on all buses
                         # Create a list copy to avoid "Set changed size during iteration" error
                         for bus in list(EventBus.all_instances):
-                            if not bus or not bus.event_queue:
+                            # a bus that was stopped keeps its backlog: its handlers must not start after stop() returned
+                            if not bus or not bus.event_queue or not bus._is_running:  # pyright: ignore[reportPrivateUsage]
                                 continue
 
                             # Process one event from this bus if available
